@@ -28,7 +28,7 @@ DEPS = {
     "A_stopping": ["p_composition", "b_atomic_data", "b_element", "b_attenuator", "att_clamp_to_zero", "b_plasma"],
     "A_density": ["p_composition", "b_atomic_data", "b_element", "b_attenuator", "att_clamp_to_zero", "b_plasma",
                   "b_energy", "b_power", "b_length", "att_step", "b_transform", "b_parent", "p_transform", "p_parent",
-                  "b_divergence_x", "b_divergence_y"],
+                  "a_transform", "b_divergence_x", "b_divergence_y"],
     "B_geometry": ["b_sigma", "b_divergence_x", "b_divergence_y", "b_length", "att_clamp_sigma", "b_attenuator",
                    "att_clamp_to_zero", "b_models"],
     "B_material": ["b_models", "b_atomic_data", "b_integrator", "b_plasma"],
@@ -36,7 +36,7 @@ DEPS = {
     "BES_cache": ["p_composition", "b_atomic_data", "b_element", "b_models"],
     "L_geometry": ["l_profile", "lp_length", "lp_radius"],
     "L_material": ["l_models", "l_integrator", "l_importance", "l_spectrum", "l_profile", "lp_length", "lp_radius",
-                   "l_transform", "l_parent", "p_transform", "p_parent"],
+                   "l_transform", "l_parent", "p_transform", "p_parent", "a_transform"],
     "S_arrays": ["ls_min", "ls_max", "ls_bins", "ls_mean", "ls_stddev", "l_spectrum"],
     "LP_function": ["lp_energy", "l_profile"],
 }
@@ -113,6 +113,9 @@ def run(ctx):
     base["p_models"] = (0, 1, 2, 3, 4)
     base["b_models"] = (0, 1)
     alt_list = {"p_models": [(4, 3, 2, 1, 0)], "b_models": [(1, 0)], "l_models": [()], "p_composition": [(0, 4, 2, 3), (0, 1, 2, 3, 5)]}
+    # a field whose effect depends on the scene-graph topology is probed in a topology where it matters:
+    # the intermediate node is an ancestor of the beam and the laser (not of the plasma)
+    probe_base = {"a_transform": {"b_parent": 1, "l_parent": 1, "p_parent": 0}}
     inval = {}
     probe_rows = []
     probe_fail = []
@@ -121,7 +124,7 @@ def run(ctx):
         rebuilt_sets = []
         for v in alts:
             ctx.crumb({"start_config": "default", "history_so_far": [["observe"], ["set", f, repr(v)], ["observe"]]})
-            sc = S.Scene(base)
+            sc = S.Scene(dict(base, **probe_base.get(f, {})))
             sig0 = signature(sc, sc.observe())
             try:
                 sc.apply(("set", f, v))
